@@ -129,13 +129,18 @@ def DTCWTForward(ps, ts):
     return [N(yl)] + [out(h) for h in yh]
 
 
-def DTCWTInverse(ps, ts, empty=None):
-    o, ri, sym = ps
+def _absent(sp):
+    return None if sp == 0 else (torch.tensor([]) if sp == 1 else torch.zeros([]))
+
+
+def DTCWTInverse(ps, ts):
+    o, ri, sym, sp = ps
     from pytorch_wavelets.dtcwt.transform2d import DTCWTInverse as M
     g0o, g1o, g0a, g0b, g1a, g1b = ts[:6]
     low = ts[6]; highs = ts[7:]
     mod = M(biort=(g0o, g1o), qshift=(g0a, g0b, g1a, g1b), o_dim=o, ri_dim=ri, mode=mode_of(sym))
-    return [N(mod((_opt(low), [_opt(h) for h in highs])))]
+    return [N(mod((_absent(sp) if low is None else T(low), [_absent(sp) if h is None else T(h) for h in highs])))]
 
 
 IMPL = {k: v for k, v in list(globals().items()) if callable(v) and k[0] != '_' and k not in ('T', 'N', 'lw', 'tf', 'col', 'mode_of', 'out', 'bits')}
+
